@@ -140,6 +140,7 @@ type c16Rec struct {
 	Task    int    `json:"task"`
 	Size    int    `json:"size"`
 	TimeMs  int64  `json:"time_ms"`
+	AddMs   int64  `json:"add_ms"` // local clock when Add was called (TimeMs is the record\'s own stamp)
 	Call    int64  `json:"call"`
 	Return  int64  `json:"return"`
 	Via     string `json:"via"`
@@ -276,13 +277,16 @@ func c16Body(configured bool) func(rc *RunCtx) {
 		var tasks []*simrt.Task
 		for p := 0; p < nProd; p++ {
 			pl := plans[p]
+			// the record's own time stamp need not come from this host's clock: ahead, behind
+			skew := []int64{0, 0, 0, 30000, -3600000, d.WaitMs / 2}[simrt.Choose(6)]
 			tk := simrt.GoNamed("prod"+strconv.Itoa(p+1), func() {
 				id := simrt.Cur().ID
 				for _, it := range pl {
 					if it.gapMs > 0 {
 						simrt.Sleep(time.Duration(it.gapMs) * time.Millisecond)
 					}
-					r := &c16Rec{ID: it.id, Task: id, Size: it.size, TimeMs: dateutil.SystemNow(), Via: "queue"}
+					r := &c16Rec{ID: it.id, Task: id, Size: it.size, AddMs: dateutil.SystemNow(), Via: "queue"}
+					r.TimeMs = r.AddMs + skew
 					rp := c16Record(it.id, it.size, r.TimeMs)
 					r.Enc = len(pack.ToBytesPack(rp))
 					d.addRec(r)
@@ -300,7 +304,8 @@ func c16Body(configured bool) func(rc *RunCtx) {
 				d.directTask = simrt.Cur().ID
 				var batch []*pack.LogSinkPack
 				for _, it := range direct {
-					r := &c16Rec{ID: it.id, Task: d.directTask, Size: it.size, TimeMs: dateutil.SystemNow(), Via: "direct"}
+					r := &c16Rec{ID: it.id, Task: d.directTask, Size: it.size, AddMs: dateutil.SystemNow(), Via: "direct"}
+					r.TimeMs = r.AddMs
 					rp := c16Record(it.id, it.size, r.TimeMs)
 					r.Enc = len(pack.ToBytesPack(rp))
 					d.addRec(r)
@@ -457,7 +462,7 @@ func c16After(rc *RunCtx, res *simrt.Result) {
 			bySize := cum >= d.MaxBuf
 			byAge := last > 0 && times[0] != 0 && times[last]-times[0] >= d.WaitMs
 			lastRec := d.byID[ids[last]]
-			byIdle := lastRec != nil && e.AtMs-lastRec.TimeMs >= d.WaitMs-2
+			byIdle := lastRec != nil && e.AtMs-lastRec.AddMs >= d.WaitMs-2
 			byCancel := d.CancelStamp != 0 && e.Stamp > d.CancelStamp
 			switch {
 			case bySize:
@@ -469,7 +474,7 @@ func c16After(rc *RunCtx, res *simrt.Result) {
 			case byIdle:
 				rc.Probe("flush_by_idle")
 			default:
-				viol("premature-flush", fmt.Sprintf("pack #%d (records %v, %d payload bytes) was handed over at %d ms although no trigger was due: buffer limit %d not reached, age %d ms < wait %d ms, last record added at %d ms, no cancel", e.Seq, ids, cum, e.AtMs, d.MaxBuf, times[last]-times[0], d.WaitMs, lastRec.TimeMs))
+				viol("premature-flush", fmt.Sprintf("pack #%d (records %v, %d payload bytes) was handed over at %d ms although no trigger was due: buffer limit %d not reached, age %d ms < wait %d ms, last record added at %d ms, no cancel", e.Seq, ids, cum, e.AtMs, d.MaxBuf, times[last]-times[0], d.WaitMs, lastRec.AddMs))
 			}
 		}
 		if e.Via == "direct" && len(d.Emits) > 1 {
